@@ -26,6 +26,7 @@ CLAIMS = {
  "C16": ("model_checking", "5/C16", "Crash points as events: for sampled edges of the bounded model a panic is injected at the n-th hash / eq / size / clone / closure callback for every n until the operation completes, followed by continued use and drop; TLC validates each crash event against the declarative CrashBad consistency predicate (structure well-formed, sizes sum, no double drop, no invented/lost entries for closure panics) and every later step against the ordinary specification."),
  "C17": ("model_checking", "5/C17", "Every (state, iterator kind, word, forget) edge of the iterator model is executed on the real cache as its own segment followed by continued use and drop; TLC validates the declarative ForgetBad predicate (valid cache, nothing yielded still inside, conservation of objects, no registry anomaly) and all later steps."),
  "C15": ("model_checking", "5/C15", "C15_Step for every subset of present keys in every model state; replay compares predicate call sequence (with object identity), survivors, drops and sizes."),
+ "C18": ("other", "5/C18", "The compiler is the decision procedure. spec/Borrow.tla supplies the model of what must be accepted and rejected (loan discipline: shared loans admit only shared calls, exclusive loans admit nothing; auto traits: conjunction over K, V, S) and TLC enumerates all 498 acquire/call/use programs and 128 witness obligations plus generic ones; generated Rust functions are compiled with cargo check and every verdict (incl. the error code class) is compared with the prediction. The API table is cross-checked against the pub fn signatures so that a new lending API cannot go unprobed."),
  "C19": ("model_checking", "5/C19", "C19_Step (read operations are stuttering steps) model-checked; replay/trace additionally require the structural fingerprint (node addresses, links, recorded sizes, seal, table) to be identical before and after every shared-reference call."),
  "C20": ("model_checking", "5/C20", "Hash-count upper bound HashBound model-checked against the constructive bound; replay/trace compare the measured number of Hash::hash calls of every operation with the bound (upper bound only)."),
 }
@@ -47,8 +48,9 @@ def main():
             "replay_cmd_template": "python3 tools/check.py replay {path}",
             "engine": "tlc-model-based",
             "level_claimed": {"category": cat, "text": text, "design_ref": "DESIGN.md section " + ref},
-            "level_note": MS_NOTE if pid in ("C08", "C09") else CORE_NOTE,
-            "technique": ("TLA+ size algebra as oracle and enumerator (TLC); generated Rust probes; TLC validation of probe records"
+            "level_note": (MS_NOTE if pid in ("C08", "C09") else
+                           "Trusted: rustc's type and borrow checker; the probe family (3-step programs over the API table, 4 witness types per parameter) approximates 'no safe program'." if pid == "C18" else CORE_NOTE),
+            "technique": ("TLA+ loan/auto-trait model enumerated by TLC; rustc accept/reject of generated probes compared with the model's predictions" if pid == "C18" else "TLA+ size algebra as oracle and enumerator (TLC); generated Rust probes; TLC validation of probe records"
                           if pid in ("C08", "C09") else
                           "TLA+ specification + TLC model checking; spec->impl replay of every TLC transition; impl->spec TLC trace validation"),
         })
